@@ -146,6 +146,8 @@ def collect(ctx, pid):
     sl = STRUCT_LABELS.get(pid)
     for name, obs in ctx.ob['obligations'].items():
         d = ctx.by_name[name]
+        if d['kind'] != 'bitfield':
+            continue
         for label, ok in obs:
             kind, f = field_of(d, label)
             if f is not None and sel and sel(d, kind, f):
